@@ -164,9 +164,7 @@ def run(ctx):
     r7 = RuleResult('G7', 'word terminals are lexed with a word-boundary check')
     n_sym = n_kw = 0
     for f in list(g.parsers()) + list(g.helpers()):
-        out = f.out_ty
-        lexeme = (out is not None and out.get('k') == 'path' and out['p'] in ('Locate', 'Span')) or f.kind == 'helper' \
-            or any(sx.is_call(n, 'concat') for n in sx.walk(f.item.get('body')))
+        lexeme = getattr(f, 'lexeme', False) or f.kind == 'helper'
         for node, look in grammar.iter_ir_ctx(f.ir):
             if node['op'] != 'lit' or node['text'] is None:
                 continue
